@@ -5,5 +5,5 @@ sorts(
     model="obj:ModelMeta", blacklist_words="set", convert_unicode="bool", post_init_converters="bool", no_meta="bool",
     percent_fields="float", number_fields="int",
     _overflow="bool", _literals="set", MAX_LITERALS="int", MAX_STRING_LENGTH="int",
-    _models_cmp="tuple", **{"_models_cmp[]": "obj:ModelCmp", "ext:sys.argv": "list", "ext:sys.argv[]": "str"}, types="list", replaces="set",
+    _models_cmp="tuple", **{"_models_cmp[]": "obj:ModelCmp", "ext:sys.argv": "list", "merge": "list", "merge[]": "str", "ext:sys.argv[]": "str"}, types="list", replaces="set",
 )
